@@ -30,7 +30,7 @@ func init() {
 		var cases []hsCase
 		for _, m := range methods {
 			for _, un := range []bool{false, true} {
-				base := hsCase{Transport: transport, Browser: browser, Method: m, Unordered: un, ProxyMethod: "shadowsocks", SID: 7, ServerName: "example.com"}
+				base := hsCase{Transport: transport, Browser: browser, Method: m, Unordered: un, ProxyMethod: "shadowsocks", SID: 7, ServerName: "example.com", CDNEdge: c.P("edge", "")}
 				if full {
 					for _, pl := range plens {
 						for _, sid := range sids {
@@ -132,6 +132,9 @@ func init() {
 				}
 			}
 		}
+		// CDN edges that re-frame the origin's replies, or forward the request with lower-case field names
+		jobs = append(jobs, vx.Job{Scenario: "hs.agree", Params: vx.P("transport", "cdn", "browser", "chrome", "product", "star", "seeds", "1", "edge", "pieces"), Weight: 4},
+			vx.Job{Scenario: "hs.agree", Params: vx.P("transport", "cdn", "browser", "firefox", "product", "star", "seeds", "1", "edge", "lower"), Weight: 4})
 		// every clock offset strictly inside the window agrees, whatever the server clock's sub-second phase
 		jobs = append(jobs, vx.Job{Scenario: "auth.window", Params: vx.P("transport", "direct"), Weight: 3}, vx.Job{Scenario: "auth.window", Params: vx.P("transport", "cdn"), Weight: 3})
 		// two handshakes at once (different users; the same session): each client can open its reply and holds
